@@ -199,8 +199,12 @@ def check_history(case):
         ops = [{"op": "start", "bits": [0, 1]}] + ops
     occ = [int(x) for x in b.blank(ops[0]["bits"])]
     if case.get("init") == "started":
+        # created from a started sampler that is used for something else afterwards: the compiled sampler keeps its own state
+        src = reference_for(b, case, collections.Counter())
+        src.start(np.array(occ, dtype=np.int64))
+        A, B = make_jit(src), make_jit(src)
+        src.update(sorted(src.unoccupied_set), sorted(src.occupied_set))  # flips every site of the source sampler in place
         ref.start(np.array(occ, dtype=np.int64))
-        A, B = make_jit(ref), make_jit(ref)
     else:
         A, B = make_jit(ref), make_jit(ref)
         ref.start(np.array(occ, dtype=np.int64))
